@@ -99,7 +99,7 @@ def render(sk, incdir):
     k = sk["id"]
     name = "kk_%d" % k
     lines = []
-    exp = dict(name=name, counts=[0, 0], limits=["n", "n"], marks=[], define=None, include=None, plain=[])
+    exp = dict(name=name, counts=[0, 0], limits=["n", "n"], marks=[], define=None, include=None, include_restricted=None, plain=[])
     for p in sk["prefix"]:
         if p[0] == "plain":
             l = "/* plain file-scope text of skeleton %d */" % k
@@ -112,10 +112,13 @@ def render(sk, incdir):
             exp["define"] = p[1]
         elif p[0] == "include":
             fn = "inc_%d.h" % k
+            Y = XSETS[(k + 2) % len(XSETS)]
             with open(os.path.join(incdir, fn), "w") as f:
-                f.write("#define INC_%d 1\n" % k)
+                # the included file itself carries a context-restricted line
+                f.write("#define INC_%d 1\n#define INCR_%d 1 //only_for_context %s\n" % (k, k, xs(Y)))
             lines.append("//include_file %s for_context %s" % (fn, xs(p[1])))
             exp["include"] = p[1]
+            exp["include_restricted"] = Y
     lines.append("/*gpukern*/ void %s(const int n, /*gpuglmem*/ int* c0, /*gpuglmem*/ int* c1, /*gpuglmem*/ int* flags){" % name)
     nmark = 0
     for b in sk["blocks"]:
@@ -134,6 +137,7 @@ def render(sk, incdir):
                 lines.append("    bump_%d(c%d, %s);" % (k, b["ctr"], v))
                 exp["counts"][b["ctr"]] += 1
             else:
+                assert nmark < 4
                 lines.append("    flags[%d] = 7; //only_for_context %s" % (nmark, xs(st[1])))
                 exp["marks"].append((nmark, st[1]))
                 nmark += 1
@@ -141,7 +145,7 @@ def render(sk, incdir):
     l = "  flags[7] = flags[7] + 0; /* plain statement of skeleton %d */" % k
     lines.append(l)
     exp["plain"].append(l)
-    lines += ["#ifdef MARK_%d" % k, "  flags[5] = 1;", "#endif", "#ifdef INC_%d" % k, "  flags[6] = 1;", "#endif", "}"]
+    lines += ["#ifdef MARK_%d" % k, "  flags[5] = 1;", "#endif", "#ifdef INC_%d" % k, "  flags[6] = 1;", "#endif", "#ifdef INCR_%d" % k, "  flags[4] = 1;", "#endif", "}"]
     exp["plain"] += ["#ifdef MARK_%d" % k, "  flags[5] = 1;", "#endif", "#ifdef INC_%d" % k, "  flags[6] = 1;", "}"]
     return lines, exp
 
@@ -294,6 +298,10 @@ def check_counts(exp, n, c0, c1, fl, target, label):
             want = 1 if (X is not None and active(target, X)) else 0
             if fl[fi] != want:
                 return key + "-for-context", "%s restricted to %s: marker is %d on %s (n=%d)" % (key, X, int(fl[fi]), target, n)
+        if exp["include"] is not None:
+            want = 1 if (active(target, exp["include"]) and active(target, exp["include_restricted"])) else 0
+            if fl[4] != want:
+                return "only-for-context", "line restricted to {%s} inside a file included for {%s}: marker is %d on %s (n=%d)" % (xs(exp["include_restricted"]), xs(exp["include"]), int(fl[4]), target, n)
     return None
 
 
